@@ -9,6 +9,8 @@ import (
 	"github.com/bronlabs/bron-crypto/pkg/base"
 	"github.com/bronlabs/bron-crypto/pkg/base/algebra"
 	"github.com/bronlabs/bron-crypto/pkg/base/polynomials"
+	"github.com/bronlabs/bron-crypto/pkg/base/serde"
+	"github.com/bronlabs/bron-crypto/pkg/base/utils"
 	"github.com/bronlabs/bron-crypto/pkg/base/utils/mathutils"
 	"github.com/bronlabs/bron-crypto/pkg/proofs/dlog"
 	"github.com/bronlabs/bron-crypto/pkg/proofs/sigma"
@@ -93,6 +95,24 @@ type Commitment[G algebra.PrimeGroupElement[G, S], S algebra.PrimeFieldElement[S
 	A G `cbor:"a"`
 }
 
+type commitmentDTO[G algebra.PrimeGroupElement[G, S], S algebra.PrimeFieldElement[S]] struct {
+	A G `cbor:"a"`
+}
+
+// UnmarshalCBOR deserialises and validates a commitment: a CBOR map without its "a" entry would
+// otherwise decode into a nil group element that Bytes() and Verify dereference.
+func (a *Commitment[G, S]) UnmarshalCBOR(data []byte) error {
+	dto, err := serde.UnmarshalCBOR[*commitmentDTO[G, S]](data)
+	if err != nil {
+		return errs.Wrap(err).WithMessage("cannot unmarshal commitment")
+	}
+	if dto == nil || utils.IsNil(dto.A) {
+		return ErrInvalidArgument.WithMessage("commitment element is nil")
+	}
+	a.A = dto.A
+	return nil
+}
+
 // Bytes serialises the commitment to a byte slice.
 func (a *Commitment[G, S]) Bytes() []byte {
 	var d []byte
@@ -112,6 +132,24 @@ type State[S algebra.PrimeFieldElement[S]] struct {
 // Response is the prover's answer to the verifier's challenge.
 type Response[S algebra.PrimeFieldElement[S]] struct {
 	Z S `cbor:"z"`
+}
+
+type responseDTO[S algebra.PrimeFieldElement[S]] struct {
+	Z S `cbor:"z"`
+}
+
+// UnmarshalCBOR deserialises and validates a response: a CBOR map without its "z" entry would
+// otherwise decode into a nil scalar that Bytes() and Verify dereference.
+func (z *Response[S]) UnmarshalCBOR(data []byte) error {
+	dto, err := serde.UnmarshalCBOR[*responseDTO[S]](data)
+	if err != nil {
+		return errs.Wrap(err).WithMessage("cannot unmarshal response")
+	}
+	if dto == nil || utils.IsNil(dto.Z) {
+		return ErrInvalidArgument.WithMessage("response scalar is nil")
+	}
+	z.Z = dto.Z
+	return nil
 }
 
 // Bytes serialises the response to a byte slice.
@@ -236,6 +274,14 @@ func (p *Protocol[G, S]) Verify(statement *Statement[G, S], commitment *Commitme
 	}
 	if response == nil {
 		return ErrInvalidArgument.WithMessage("response is nil")
+	}
+	// commitment and response may come from the wire as plain structs: a CBOR map without its "a" /
+	// "z" entry decodes into a nil component, which must be refused rather than dereferenced.
+	if utils.IsNil(commitment.A) {
+		return ErrInvalidArgument.WithMessage("commitment element is nil")
+	}
+	if utils.IsNil(response.Z) {
+		return ErrInvalidArgument.WithMessage("response scalar is nil")
 	}
 	if len(statement.Xs) != p.k {
 		return ErrVerificationFailed.WithMessage("invalid number of statements")
